@@ -184,14 +184,20 @@ example :
       = lit "[xm][xm]" := by decide
 
 /-- A range-loop source without a square bracket is taken as it is, inside counter loops too (the substitution of
-    `m[i]` — repair of `Ctx.rloop` — touches bracketed sources only). -/
+    `m[i]` — repair of `Ctx.rloop` — touches bracketed sources only); the loop starts with `ctx.Err` cleared (repair:
+    an error an earlier tag had left there used to be handed to the caller by a loop over an unset variable). -/
 theorem rloopQB_plain (run : St → Res) (re : Option (St → Res)) (ls : RLoopSpec) (s : St)
-    (hb : indexOf 91 ls.src = none) : rloopQB run re ls s = rloopWith run re ls s := by
+    (hb : indexOf 91 ls.src = none) :
+    rloopQB run re ls s = rloopWith run re ls { s with c := { s.c with err := none } } := by
   unfold rloopQB cmpPath replaceQB
   cases s.c.chQB <;> simp [hb]
 
-theorem rloopQB_plain_fn (run : St → Res) (re : Option (St → Res)) (ls : RLoopSpec)
-    (hb : indexOf 91 ls.src = none) : rloopQB run re ls = rloopWith run re ls :=
-  funext fun s => rloopQB_plain run re ls s hb
+/-- … and from a state without a pending error that is the loop at that very state. -/
+theorem rloopQB_plain_clean (run : St → Res) (re : Option (St → Res)) (ls : RLoopSpec) (s : St)
+    (hb : indexOf 91 ls.src = none) (he : s.c.err = none) : rloopQB run re ls s = rloopWith run re ls s := by
+  rw [rloopQB_plain run re ls s hb]
+  have : ({ s with c := { s.c with err := none } } : St) = s := by
+    cases s with | mk c w => cases c; simp at he; subst he; rfl
+  rw [this]
 
 end DyntplV.C14
